@@ -434,6 +434,8 @@ class WorldGen:
             entry["inline"] = True  # declared through Object.inline(...)
         if base is not None and rng.random() < 0.15:
             entry["mixin"] = rng.choice(["first", "last"])  # class C(Mixin, Base) / class C(Base, Mixin)
+        elif base is not None and rng.random() < 0.12:
+            entry["metacall"] = True  # ObjectMeta(name, (Base,), classdict, **kw)
         self.world["classes"].append(entry)
         return entry
 
